@@ -118,8 +118,8 @@ func localStoreLockSpec(c *Ctx, typ string) *LockSpec {
 			{Name: "invocation of a LocationBlobGetter", Req: 1, InvokeOf: getterT},
 			{Name: "invocation of a LocationBlobPutFinalizer", Req: 2, InvokeOf: finT, Invalidat: true},
 		},
-		InScope: func(fd *ast.FuncDecl, recv *types.Named) bool { return recv != nil && recv.Obj() == n.Obj() },
-		IsEntry: func(fd *ast.FuncDecl) bool { return fd.Name.IsExported() },
+		InScope:      func(fd *ast.FuncDecl, recv *types.Named) bool { return recv != nil && recv.Obj() == n.Obj() },
+		IsEntry:      func(fd *ast.FuncDecl) bool { return fd.Name.IsExported() },
 		StaleTypes:   []types.Type{locT, getterT},
 		StaleExemptF: map[string]bool{"SizeBytes": true},
 		InvokeStale:  map[types.Type]bool{getterT: true},
@@ -198,8 +198,8 @@ func periodicSyncerSpecs(c *Ctx) []*LockSpec {
 
 func init() {
 	register(&Rule{
-		ID: "R02.3", Props: []string{"C02", "C04", "C07"}, Engine: "lockstate",
-		Text: "PeriodicSyncer: snapshot (GetPersistentState), state-file write and acknowledgement (NotifyPersistentStateWritten) happen under one hold of storeLock, which is released on every exit (also when the write fails); the PersistentStateSource methods are called with the block-list lock in the mode their interface comments demand (read for the wake-up channels and the snapshot, write for the three notifications); the block-list lock is never held while blocking on a channel; helper preconditions (notifyAndSyncDataLocked is entered and left with the write lock) hold at every call site",
+		ID: "R02.3", Props: []string{"C02", "C04", "C07", "C03"}, Engine: "lockstate",
+		Text:  "PeriodicSyncer: snapshot (GetPersistentState), state-file write and acknowledgement (NotifyPersistentStateWritten) happen under one hold of storeLock, which is released on every exit (also when the write fails); the PersistentStateSource methods are called with the block-list lock in the mode their interface comments demand (read for the wake-up channels and the snapshot, write for the three notifications); the block-list lock is never held while blocking on a channel; helper preconditions (notifyAndSyncDataLocked is entered and left with the write lock) hold at every call site",
 		Floor: 12, MustExist: true,
 		Run: func(c *Ctx) {
 			for _, spec := range periodicSyncerSpecs(c) {
